@@ -123,6 +123,42 @@ def run(prop, tier, seed, verdict):
         sigs.add(key)
         verdict.violation({"clause": "parse-device-config-" + r[0], "file": text[:400]},
                           {"file_hex": small.hex(), "file": text, "outcome": r[0], "function": "config.ParseData", "log": glog[-1500:] if r[0] == "crash" else ""}, True)
+    # ---- the same through the file loader (readDeviceConfig / LoadDeviceConfigs): files on disk, 25 per tree; the load
+    # runs under a time limit and must end with a result or an error
+    lfiles = files[:len(base) + kinds["corpus"]] + [f for f in files[len(base) + kinds["corpus"]:] if f and b"\x00" not in f[:1]][:500]
+    # files cut off in the middle of a construct (a save in progress, a full disk)
+    for f in base[:12]:
+        for _ in range(8):
+            lfiles.append(f[:rng.randrange(1, max(2, len(f)))].rstrip(b"\n"))
+    os.environ["VERIF_TMP"] = os.path.join(workdir, "tmp")
+    os.makedirs(os.environ["VERIF_TMP"], exist_ok=True)
+
+    def load_groups(groups, tag):
+        ops = []
+        for gi, grp in enumerate(groups):
+            ops += ["case g%d" % gi, "tree.reset"] + ["tree.file %d %s %s" % (k % 4, ("f%04d.toml" % k).encode().hex(), f.hex() if f else "-") for k, f in enumerate(grp)] + ["tree.load"]
+        rc_, out_, log_ = dev.run_go(binary, "\n".join(ops) + "\n", workdir, tag, timeout=900)
+        G_ = dev.parse_outputs(out_)
+        return [([x for x in G_.get("g%d" % gi, []) if x] or ["crash"])[0].split()[0] for gi in range(len(groups))]
+    groups = [lfiles[k:k + 25] for k in range(0, len(lfiles), 25)]
+    lres = load_groups(groups, "c09load")
+    kinds["through-the-file-loader"] = len(lfiles)
+    nbadl = 0
+    for grp, r in zip(groups, lres):
+        if r in ("ok", "err"):
+            continue
+        # which file: each alone
+        single = load_groups([[f] for f in grp], "c09load1")
+        for f, r1 in zip(grp, single):
+            if r1 not in ("ok", "err") and nbadl < 3:
+                nbadl += 1
+                verdict.violation({"clause": "load-device-config-" + r1, "file": f.decode("utf8", "replace")[:400]},
+                                  {"file_hex": f.hex(), "file": f.decode("utf8", "replace"), "outcome": r1,
+                                   "function": "config.LoadDeviceConfigs / readDeviceConfig (the file as the only *.toml of a tree)"}, True)
+        if nbadl == 0:
+            verdict.violation({"clause": "load-device-config-" + r}, {"files": [f.decode("utf8", "replace")[:300] for f in grp], "outcome": r,
+                               "function": "config.LoadDeviceConfigs on these files together (each alone loads)"}, True)
+        break
     # model correspondence on everything that decoded
     model = check_c10.run_model(results)
     disag = [(i, results[i][0], model[i]) for i in model if model[i] != results[i][0] and results[i][0] not in ("panic", "crash", "hang")]
